@@ -1170,6 +1170,11 @@ class CExec:
             z3.Not(z3.fpIsNaN(r)), z3.Not(z3.fpIsInf(r)),
             z3.fpIsNegative(r) == z3.fpIsNegative(x),
             z3.fpLT(z3.fpAbs(r), z3.fpAbs(y)))))
+        # C11 F.10.7.1: fmod(x, +-inf) returns x for x not infinite; fmod(+-inf, y) and fmod(x, 0) are NaN; NaN operands give NaN
+        self.assumptions.add("fmod special values (C11 F.10.7.1): fmod(x, +-inf) == x for finite x; NaN for an infinite x, a zero y or a NaN operand")
+        xfin = z3.And(z3.Not(z3.fpIsNaN(x)), z3.Not(z3.fpIsInf(x)))
+        self.assume(st, z3.And(z3.Implies(z3.And(xfin, z3.fpIsInf(y)), r == x),
+                               z3.Implies(z3.Or(z3.fpIsNaN(x), z3.fpIsNaN(y), z3.fpIsInf(x), z3.fpIsZero(y)), z3.fpIsNaN(r))))
         return r
 
     def call_contract(self, st, name, con, argn, n):
